@@ -30,6 +30,7 @@ class Scheduler(object):
         self.done = [False] * nthreads
         self.current = None
         self.phase = ['-'] * nthreads
+        self.importing = [0] * nthreads   # depth of module-level code being executed (import lock held: never pre-empt)
         self.switches = 0
         self.want_log = want_log
         self.switch_log = []           # [step, frm, to] (explicit replay format)
@@ -66,6 +67,18 @@ class Scheduler(object):
             self.next_low = d - 1
         elif name == 'phase':
             self.p = policy.get('p', 0.5)
+        elif name == 'sync':
+            # align two threads on the same phase, then interleave them finely inside it
+            self.sync_k = policy.get('k', 3)             # leader parks when it enters its k-th phase
+            self.sync_q = policy.get('q', 1.0)           # switch probability per step during the burst
+            self.sync_burst = policy.get('burst', 4000)  # steps of fine interleaving
+            self.sync_stage = 0
+            self.sync_entries = 0
+            self.sync_target = None
+            self.sync_pair = None
+            self.sync_left = 0
+            self.p = policy.get('p', 0.002)
+        self.max_switches = policy.get('max_switches', 30000)
 
     # ------------------------------------------------------------------ runnable helpers
     def runnable_others(self, tid):
@@ -84,7 +97,7 @@ class Scheduler(object):
         pkg_dir = self.pkg_dir
         cache = self.code_cache
         opcode = self.gran == 'opcode'
-        phase_policy = self.base == 'phase'
+        phase_policy = self.base in ('phase', 'sync')
 
         def is_pkg(code):
             r = cache.get(code)
@@ -93,7 +106,11 @@ class Scheduler(object):
                 cache[code] = r
             return r
 
+        importing = self.importing
+
         def local(frame, event, arg):
+            if importing[tid]:
+                return local
             if event == 'line':
                 if not opcode:
                     sched.step(tid)
@@ -101,8 +118,16 @@ class Scheduler(object):
                 sched.step(tid)
             return local
 
+        def local_module(frame, event, arg):
+            # top-level code of a module being imported: the import lock is held, so the thread must not be parked
+            if event == 'return':
+                importing[tid] -= 1
+            return local_module
+
         def local_phase(frame, event, arg):
             # a direct callee of minify()/unparse(): its return ends the phase
+            if importing[tid]:
+                return local_phase
             if event == 'line':
                 if not opcode:
                     sched.step(tid)
@@ -111,14 +136,19 @@ class Scheduler(object):
             elif event == 'return':
                 sched.phase[tid] = 'top'
                 if phase_policy:
-                    sched.boundary(tid)
+                    sched.boundary(tid, False)
             return local_phase
 
         def glob(frame, event, arg):
             if event != 'call':
                 return None
             code = frame.f_code
+            if code.co_name == '<module>':
+                importing[tid] += 1
+                return local_module
             if not is_pkg(code):
+                return None
+            if importing[tid]:
                 return None
             if opcode:
                 frame.f_trace_opcodes = True
@@ -132,7 +162,7 @@ class Scheduler(object):
                         name = type(slf).__name__ + ('' if name == '__call__' else '.init')
                 sched.phase[tid] = name
                 if phase_policy:
-                    sched.boundary(tid)
+                    sched.boundary(tid, True)
                 return local_phase
             if code.co_name in TOP_FUNCS and sched.phase[tid] == '-':
                 sched.phase[tid] = 'top'
@@ -174,22 +204,69 @@ class Scheduler(object):
             to = self.explicit.get(st)
             if to is not None and to != tid and not self.done[to]:
                 self.switch(tid, to)
+        elif name == 'sync':
+            self.sync_step(tid)
         # 'phase' and 'none': no pre-emption on plain steps
 
-    def boundary(self, tid):
-        """Phase boundary (only counted when the run's base policy is 'phase')."""
+    def boundary(self, tid, entering=True):
+        """Phase boundary (only counted when the run's base policy is 'phase' or 'sync')."""
         self.steps += 1
         if self.name == 'explicit':
             to = self.explicit.get(self.steps)
             if to is not None and to != tid and not self.done[to]:
                 self.switch(tid, to)
             return
+        if self.name == 'sync':
+            self.sync_boundary(tid, entering)
+            return
         if self.rng.random() < self.p:
             others = self.runnable_others(tid)
             if others:
                 self.switch(tid, others[self.rng.randrange(len(others))])
 
+    def sync_boundary(self, tid, entering):
+        st = self.sync_stage
+        if st == 0 and entering:
+            self.sync_entries += 1
+            if self.sync_entries >= self.sync_k:
+                others = self.runnable_others(tid)
+                if others:
+                    self.sync_target = self.phase[tid]
+                    other = others[self.rng.randrange(len(others))]
+                    self.sync_pair = (tid, other)
+                    self.sync_stage = 1
+                    self.switch(tid, other)
+                else:
+                    self.sync_stage = 3
+        elif st == 1 and entering and self.sync_pair and tid == self.sync_pair[1] and self.phase[tid] == self.sync_target:
+            self.sync_stage = 2
+            self.sync_left = self.sync_burst
+        elif st == 2 and not entering and self.sync_pair and tid in self.sync_pair:
+            # one of the two leaves the phase: the burst is over
+            self.sync_stage = 3
+
+    def sync_step(self, tid):
+        st = self.sync_stage
+        if st == 2:
+            self.sync_left -= 1
+            if self.sync_left <= 0:
+                self.sync_stage = 3
+                return
+            if tid in self.sync_pair and self.rng.random() < self.sync_q:
+                other = self.sync_pair[0] if tid == self.sync_pair[1] else self.sync_pair[1]
+                if not self.done[other]:
+                    self.switch(tid, other)
+                else:
+                    self.sync_stage = 3
+        elif st == 3:
+            if self.rng.random() < self.p:
+                others = self.runnable_others(tid)
+                if others:
+                    self.switch(tid, others[self.rng.randrange(len(others))])
+
     def switch(self, frm, to):
+        if self.switches >= self.max_switches and self.name != 'explicit':
+            return
         self.switches += 1
         pf, pt = self.phase[frm], self.phase[to]
         if self.want_log:
@@ -223,8 +300,10 @@ class Scheduler(object):
                 nxt = rest[0]
         elif self.name == 'pct':
             nxt = max(rest, key=lambda t: self.prio[t])
-        elif self.name in ('rand', 'phase'):
+        elif self.name in ('rand', 'phase', 'sync'):
             nxt = rest[self.rng.randrange(len(rest))]
+            if self.name == 'sync' and self.sync_stage in (1, 2):
+                self.sync_stage = 3
         else:
             after = [t for t in rest if t > tid]
             nxt = after[0] if after else rest[0]
